@@ -152,7 +152,7 @@ def _shard(arg):
             self.do({"op": "merge", "i": j, "j": i})
 
     M = machines.make_machine(
-        "C05Machine", AddChecker, rec, holder, CFG=ANY_CMS_CFG, N=2, VALUES=_values(), DRAWS=DRAWS, SAVELOAD=False, MAXKEY=24,
+        "C05Machine", AddChecker, rec, holder, SELF_MERGE=True, CFG=ANY_CMS_CFG, N=2, VALUES=_values(), DRAWS=DRAWS, SAVELOAD=False, MAXKEY=24,
         add_big_linear=add_big_linear, pump_n_added=pump_n_added,
     )
     common.run_machine(M, common.derive_seed(seed, "C05", shard), n_examples, steps, holder, rec, retry=lambda c_: machines.replay_trace(c_, AddChecker))
